@@ -64,18 +64,13 @@ fn main() {
         }
         let cfgj = d.cfg.to_json();
         let trace = std::mem::take(&mut d.trace);
-        // dropping every handle and the connection may trip the `unstable`-only debug assertion in
-        // `Drop for Store` (records still in the slab); record it instead of dying
-        // after a panic inside the library its mutex is poisoned and the destructors of the handles panic again while
-        // unwinding (which aborts the process): leak the driver instead of dropping it
+        // Dropping every handle and the connection may trip the `unstable`-only debug assertion in `Drop for Store`
+        // (records still in the slab); the unwinding then runs the destructors of the remaining handles on a poisoned
+        // mutex / half-dropped store, which can panic again inside a destructor and ABORT the process (losing the rest
+        // of the batch).  Nothing after this point is part of the trace, so the driver is leaked instead of dropped.
         let lib_panicked = trace.iter().any(|st| st["res"].get("panic").is_some());
-        let dropped = if lib_panicked {
-            std::mem::forget(d);
-            Ok(())
-        } else {
-            std::panic::catch_unwind(std::panic::AssertUnwindSafe(move || drop(d)))
-        };
-        println!("{}", json!({"seed": seed, "i": i, "profile": p.name, "cfg": cfgj, "settled": settled, "drop_panic": dropped.is_err(), "lib_panicked": lib_panicked, "trace": trace}));
+        std::mem::forget(d);
+        println!("{}", json!({"seed": seed, "i": i, "profile": p.name, "cfg": cfgj, "settled": settled, "drop_panic": false, "lib_panicked": lib_panicked, "trace": trace}));
         h2::verif::stop();
     }
     println!("{}", json!({"summary": {"scenarios": n, "ops": ops_hist}}));
